@@ -149,6 +149,7 @@ class Verdict:
                 "finalOk": self.final_ok}
 
 
+VALIDATE_BYTES = 24 * 2 ** 20       # (estimated from the number of events and tasks)
 VALIDATE_CHUNK = 6000     # traces per TLC invocation: beyond ~10^4 traces one JVM spends its time in the collector (measured: 41k traces, no end in 50 min)
 
 
@@ -157,10 +158,21 @@ def validate(recs, workers=16, timeout=3000, keep_file=None):
     todo = [r for r in recs if "project" in r]
     if not todo:
         return {}, None
-    if len(todo) > VALIDATE_CHUNK and not keep_file:
+    # chunks bounded by number AND by size: every TLC worker builds the whole input as TLA+ values; with 6 000 long traces
+    # (156 MB of JSON) one run took more than 50 minutes, its four quarters 15-28 s each
+    sizes = [40 * (len(r.get("events", [])) + 8 * len(r["project"].get("tasks", [])) + 20) for r in todo]
+    if (len(todo) > VALIDATE_CHUNK or (sum(sizes) > VALIDATE_BYTES and len(todo) > 1)) and not keep_file:
+        chunks, cur, cur_b = [], [], 0
+        for r, b in zip(todo, sizes):
+            if cur and (len(cur) >= VALIDATE_CHUNK or cur_b + b > VALIDATE_BYTES):
+                chunks.append(cur)
+                cur, cur_b = [], 0
+            cur.append(r)
+            cur_b += b
+        chunks.append(cur)
         out, total = {}, None
-        for i in range(0, len(todo), VALIDATE_CHUNK):
-            vs, res = validate(todo[i:i + VALIDATE_CHUNK], workers=workers, timeout=timeout)
+        for ch in chunks:
+            vs, res = _validate_one(ch, workers, timeout, None)
             out.update(vs)
             if total is None:
                 total = res
@@ -169,6 +181,10 @@ def validate(recs, workers=16, timeout=3000, keep_file=None):
                 total.distinct += res.distinct
                 total.wall += res.wall
         return out, total
+    return _validate_one(todo, workers, timeout, keep_file)
+
+
+def _validate_one(todo, workers, timeout, keep_file):
     fd, path = tempfile.mkstemp(prefix="sptrace_", suffix=".ndjson")
     try:
         with os.fdopen(fd, "w") as f:
